@@ -62,3 +62,22 @@ package xar
 //@        adds == 0 && off == 0 && sz == 28 + hdr.CompressedSize + old && old >= 0 && hdr.CompressedSize >= 0
 //@   on call (*binpatch.PatchSet).Add(_, _, _, _) ret (): adds = adds + 1
 //@   ensures @one_replacement ret2 == nil ==> adds == 1
+//@
+//@ func Open
+//@   property C11
+//@   nopanic
+//@   requires r != nil
+//@   allocbound 0 64
+//@   allocbound 1 1000000
+//@
+//@ func parseHeader
+//@   property C11
+//@   nopanic
+//@   requires r != nil
+//@   ensures @only_linked_hash_functions err == nil ==> hashType == 3 || hashType == 5 || hashType == 7
+//@
+//@ func parseTOC
+//@   property C11
+//@   nopanic
+//@   requires r != nil && 1 <= hashType && hashType <= 19
+//@   ensures @table_of_contents_present_on_success ret2 == nil ==> ret0 != nil
